@@ -292,9 +292,12 @@ def run_one(ctx, facts, cfgname):
     ctx.floor("R16.2", "tag shapes enumerated" + sfx, len(cases), 54)
 
     kinds_of = {}
+    encoded = []
     for cname, t in cases:
         loc = enc.loc(enc.line)
         e = resolve_defaults(ev.ev(enc_root, {enc_param: t}))
+        if not is_undet(e) and e[0] == "v" and e[1] == STAG:
+            encoded.append((cname, e))
         if is_undet(e) or e[0] != "v" or e[1] != STAG:
             ctx.incomplete("R16.2", "encode:" + cname + sfx, "cannot evaluate the encoder for this shape: " + show(e), loc)
             continue
@@ -309,6 +312,41 @@ def run_one(ctx, facts, cfgname):
         ctx.require(freeze(d) == freeze(t), rule, "roundtrip:" + cname + sfx,
                     "decode(encode(%s)) == %s" % (cname, cname), dec.loc(dec.line),
                     fail="decode(encode(%s)) = %s, expected %s (encoded as %s)" % (cname, show(d), show(t), show(e)))
+
+    # ---- contradictory / incomplete tag objects: whatever such an object decodes to other than Tag::Unknown must not contradict or drop a part
+    # that is present in it.  Enumerated: every well-formed object with one present optional part removed (file-system kinds excepted: their
+    # `full` / `simple` strings are two renderings of one value).
+    ctx.also("R16.2", "an incomplete tag object (a well-formed one with one present part removed) decodes to Tag::Unknown or to a tag whose own encoding "
+                      "still carries every part that is present - a present disposition / code / signal / pid / path is never silently dropped")
+    well = {freeze(e) for _, e in encoded}
+    n_mal = 0
+    for cname, e in encoded:
+        if cname.startswith("FileEventKind:"):
+            continue
+        for fld, fv in sorted(e[3].items()):
+            if fld in ("kind", "disposition") or not (isinstance(fv, tuple) and fv[0] == "v" and fv[1] == OPT and fv[2] == "Some"):
+                continue        # an absent disposition is itself a documented shape (`completion` of unknown disposition): only payload parts are removed
+            m = (e[0], e[1], e[2], dict(e[3], **{fld: NONE}))
+            if freeze(m) in well:
+                continue
+            n_mal += 1
+            key = "incomplete:%s-without-%s%s" % (cname, fld, sfx)
+            d = resolve_defaults(ev.ev(dec_root, {dec_param: m}))
+            if is_undet(d):
+                ctx.incomplete("R16.2", key, "cannot evaluate the decoder on %s: %s" % (show(m), show(d)), dec.loc(dec.line))
+                continue
+            if d[0] == "v" and d[1] == TAG and d[2] == "Unknown":
+                ctx.ok("R16.2", key, "%s with `%s` missing decodes to Tag::Unknown" % (cname, fld), dec.loc(dec.line))
+                continue
+            e2 = resolve_defaults(ev.ev(enc_root, {enc_param: d}))
+            if is_undet(e2) or e2[0] != "v":
+                ctx.incomplete("R16.2", key, "cannot re-encode %s" % show(d), enc.loc(enc.line))
+                continue
+            dropped = sorted(f for f, v in m[3].items() if isinstance(v, tuple) and v[0] == "v" and v[1] == OPT and v[2] == "Some" and freeze(e2[3].get(f)) != freeze(v))
+            ctx.require(not dropped, "R16.2", key, "%s with `%s` missing decodes to %s, which keeps every present part" % (cname, fld, show(d)), dec.loc(dec.line),
+                        fail="a `%s` tag object whose `%s` is missing decodes to %s, silently dropping / contradicting its %s instead of yielding Tag::Unknown"
+                             % (cname, fld, show(d), "/".join(dropped)))
+    ctx.floor("R16.2", "incomplete tag objects enumerated" + sfx, n_mal, 5)
 
     # ---- kind agreement of decoder arms + fall-through
     dm = [m for m in thir.find(dec_root, "match") if "SerdeTag" in m["sty"]]
